@@ -244,6 +244,9 @@ def run(rep, tier):
     r_lu_full(rep, f)
     C17.r_band_map(rep, f)
     C17.r_mat_repinv(rep, f)
+    rep.rule("R-MASS-DEFAULT", "the default IVP::mass leaves a matrix that reads as the identity for every storage the solver may have allocated (Identity, Full, Banded(ml, mu), n <= 3; exact evaluation)")
+    import matx
+    matx.r_mass_default_dense(rep, f, 3)
     rep.explanation = ("Structural: identical entries give identical arithmetic because the solvers see matrices only through (i,j) indexing, whose read/write maps agree, "
                        "and the trait defaults really deliver the documented identity / finite-difference Jacobian. "
                        "Not decided: agreement with y' = M^-1 f, DAE constraint residuals, FD vs analytic Jacobian within tolerance.")
